@@ -42,6 +42,27 @@ def setup_paths():
         sys.path.insert(1, VERIF)
     import warnings
     warnings.simplefilter('ignore')
+    _tune_malloc()
+
+
+_TUNED = False
+
+
+def _tune_malloc():
+    """Truth tables of 18-24 variables are 32 KiB - 2 MiB Python ints; glibc
+    serves such blocks with mmap/munmap, which dominates the run time.  Raise
+    the thresholds once per process (inherited by forked workers)."""
+    global _TUNED
+    if _TUNED:
+        return
+    _TUNED = True
+    try:
+        import ctypes
+        libc = ctypes.CDLL('libc.so.6')
+        libc.mallopt(-3, 1 << 30)   # M_MMAP_THRESHOLD
+        libc.mallopt(-1, 1 << 30)   # M_TRIM_THRESHOLD
+    except Exception:
+        pass
 
 
 class R:
